@@ -134,7 +134,7 @@ pub fn run<S, K: Hash>(ctx: &Ctx, rep: &mut Report, spec: Spec<S, K>) -> Stats {
             st.closed = true;
             break;
         }
-        if depth == spec.max_depth {
+        if depth == spec.max_depth || crate::report::flooded() {
             st.closed = false;
             break;
         }
